@@ -257,6 +257,19 @@ def _body(draw, fid, i, n, later_pkgs, tool_providers, classes, richness, dense=
             b["steps"][step]["toolsWeak"] = [t]
         else:
             b["steps"][step]["tools"] = [t]
+    if dense and tool_providers:
+        # tools inherited from ancestors: a recipe may forward a provider (with its own parameters) to the
+        # dependencies that follow it without using the tool itself, and may use a tool it only inherits
+        if usable and draw(st.integers(0, 2)) == 0 and not any("tools" in (x.get("use") or []) for x in b["depends"]):
+            p, t = draw(st.sampled_from(usable))
+            b["depends"] = [x for x in b["depends"] if x["name"] != p]
+            b["provideDeps"] = [x for x in b["provideDeps"] if x != p]
+            b["depends"].insert(0, {"name": p, "use": ["tools"], "forward": True,
+                                    "env": {draw(st.sampled_from(S.VARS)): draw(st.sampled_from(PLAIN_VALUES))},
+                                    "if": None, "checkoutDep": False, "tools": None})
+        if draw(st.integers(0, 2)) == 0 and not b["steps"]["build"]["tools"] and not b["steps"]["build"]["toolsWeak"]:
+            t = draw(st.sampled_from(sorted({t for _, t in tool_providers})))
+            b["steps"]["build"]["toolsWeak" if t in S.WEAKTOOLS else "tools"] = [t]
     b["shared"] = richness > 1 and draw(st.integers(0, 5)) == 0
     if draw(st.integers(0, 5)) == 0: b["relocatable"] = draw(st.booleans())
     return b
@@ -311,6 +324,8 @@ def model_st(min_recipes=2, max_recipes=7, richness=1, multi=True, dense=False):
                                                "environment": {draw(st.sampled_from(S.TOOLENV)): draw(st.sampled_from(PLAIN_VALUES))}
                                                if draw(st.booleans()) else {}}
                 body["tooldirs"] = True
+                if dense:
+                    body["steps"]["package"]["vars"] = sorted(set(body["steps"]["package"]["vars"]) | set(S.VARS[:3]))
             multi_b = None
             if multis[i]:
                 multi_b = {}
